@@ -187,26 +187,7 @@ func (es *explorerState) explore(sc *scenario, twin, collect map[int]map[string]
 			fs = append(fs, finding{Clause: sf.Clause, Site: sf.Site, Class: "any", Detail: sf.Detail})
 		}
 		for _, f := range fs {
-			pre, sw, dev := sched.Cost(x)
-			cost := (pre+sw+dev)*10000 + len(x.Points)
-			c, ok := es.cands[f.fp()]
-			if !ok {
-				c = &candidate{}
-				es.cands[f.fp()] = c
-				es.order = append(es.order, f.fp())
-			}
-			if record {
-				c.count++
-			}
-			if len(c.best) < keepWitnesses || cost < c.best[len(c.best)-1].cost {
-				w := witness{f: f, sc: sc, b: es.b, cost: cost, choices: append([]int(nil), x.Choices...), labels: x.Trace()}
-				w.trace = strings.Join(w.labels, " > ")
-				c.best = append(c.best, w)
-				sort.SliceStable(c.best, func(a, b int) bool { return c.best[a].cost < c.best[b].cost })
-				if len(c.best) > keepWitnesses {
-					c.best = c.best[:keepWitnesses]
-				}
-			}
+			es.addWitness(f, sc, x, record)
 		}
 	}
 	ex.Explore(scn)
@@ -240,6 +221,30 @@ func (es *explorerState) explore(sc *scenario, twin, collect map[int]map[string]
 		fmt.Printf("== %s: %d executions, outcomes:\n%s\n", sc.Name, st.Executions, strings.Join(ks, "\n"))
 	}
 	return !st.Capped && ex.SkippedSubtrees == 0
+}
+
+// addWitness files one violating execution under its fingerprint.
+func (es *explorerState) addWitness(f finding, sc *scenario, x *sched.Exec, record bool) {
+	pre, sw, dev := sched.Cost(x)
+	cost := (pre+sw+dev)*10000 + len(x.Points)
+	c, ok := es.cands[f.fp()]
+	if !ok {
+		c = &candidate{}
+		es.cands[f.fp()] = c
+		es.order = append(es.order, f.fp())
+	}
+	if record {
+		c.count++
+	}
+	if len(c.best) < keepWitnesses || cost < c.best[len(c.best)-1].cost {
+		w := witness{f: f, sc: sc, b: es.b, cost: cost, choices: append([]int(nil), x.Choices...), labels: x.Trace()}
+		w.trace = strings.Join(w.labels, " > ")
+		c.best = append(c.best, w)
+		sort.SliceStable(c.best, func(a, b int) bool { return c.best[a].cost < c.best[b].cost })
+		if len(c.best) > keepWitnesses {
+			c.best = c.best[:keepWitnesses]
+		}
+	}
 }
 
 // reference explores the twin scenario of a group (nobody cancels) and, for
@@ -464,6 +469,9 @@ func TestCheck(t *testing.T) {
 		}
 
 		only := os.Getenv("VERIF_C18_ONLY")
+		if only == "" || only == "pairs" {
+			es.runPairs()
+		}
 		for _, u := range plan(groups, run.NShards(), run.Thorough())[run.Shard()] {
 			g := u.g
 			if only != "" && !strings.Contains(g.Name, only) {
@@ -505,6 +513,11 @@ func replay(t *testing.T, run *vk.Run, es *explorerState, groups []*group, twinS
 		es.b = bounds{in.Bounds[0], in.Bounds[1], in.Bounds[2]}
 	}
 	es.replaying = true
+	for _, sc := range pairScenarios() {
+		if sc.Name == in.Scenario {
+			groups = append(groups, &group{Name: sc.Name, Twin: sc})
+		}
+	}
 	for _, g := range groups {
 		var target *scenario
 		for _, sc := range append([]*scenario{g.Twin}, g.Variants...) {
